@@ -51,3 +51,83 @@ Proof. vm_compute. split; reflexivity. Qed.
 Theorem rules_are_expasy_reference : MoPep.Gen.Expasy.site_rules = MoPep.Model.ExpasyRef.reference_rules.
 Proof. exact MoPep.Proofs.ExpasyProofs.rules_match_reference_proof. Qed.
 Print Assumptions rules_are_expasy_reference.
+
+(* ------------------------------------------------------------------ position-exact generated identifiers *)
+(* Model/SpecAltPos.v: SECT-n names ONE annotated Sec codon (n -> its transcript position s), W2F-i one residue
+   of the printed peptide.  The decider is the statement WitnessPos: exactly the named records are applied;
+   with no SECT id no Sec codon terminates translation, with one the peptide is a product (limits lifted) cut in
+   front of the U translated from exactly that codon (SectAt), two cannot both terminate it; the W>F step
+   replaces exactly the named residues, all of them W, by F. *)
+From MoPep Require Import Model.SpecAltPos Proofs.SpecAltPosProofs.
+
+Theorem witness_ok_pos_iff : forall x p ids sect_ids w2f_ids,
+  witness_ok_pos x p ids sect_ids w2f_ids = true <-> WitnessPos x p ids sect_ids w2f_ids.
+Proof. exact witness_ok_pos_iff_lemma. Qed.
+Print Assumptions witness_ok_pos_iff.
+
+(* it refines the kind-only decider: a position-exact witness is a witness_ok_fl witness of the kinds named *)
+Theorem witness_ok_pos_implies_fl : forall x p ids sect_ids w2f_ids,
+  witness_ok_pos x p ids sect_ids w2f_ids = true ->
+  witness_ok_fl x p ids (nonempty sect_ids) (nonempty w2f_ids) = true.
+Proof. exact witness_ok_pos_implies_fl_lemma. Qed.
+Print Assumptions witness_ok_pos_implies_fl.
+
+(* no generated identifier: the plain decider *)
+Theorem witness_ok_pos_plain : forall x p ids, witness_ok_pos x p ids [] [] = witness_ok x p ids.
+Proof. exact witness_ok_pos_plain_lemma. Qed.
+Print Assumptions witness_ok_pos_plain.
+
+(* the place carried by a positioned product is real: forgetting it gives exactly the products of Model/Spec.v,
+   and the product occupies the residues off .. off+|p| of the translation *)
+Theorem pos_product_is_product : forall x nf tail tr p,
+  (exists off, PosProduct x nf tail tr p off) <-> Product x nf tail tr p.
+Proof. exact PosProduct_Product. Qed.
+Print Assumptions pos_product_is_product.
+
+Theorem pos_product_occurs : forall x nf tail tr p off,
+  PosProduct x nf tail tr p off -> p = piece (fst tr) off (off + length p).
+Proof. exact pos_product_occurs_lemma. Qed.
+Print Assumptions pos_product_occurs.
+
+(* "terminating translation exactly at the named Sec codon and at no other": residue k of a translation is U
+   only when its codon position is an active Sec position, and with THAT position removed from the active set
+   (all others kept) translation stops there: the result is the prefix in front of that U, closed by a stop.
+   (codon table regenerated from the installed Biopython: no codon translates to U) *)
+Theorem sect_terminates_at_named : forall k s i secs,
+  nth_error (fst (translate s i secs)) k = Some Spec.U_code ->
+  memZ (i + 3 * Z.of_nat k) secs = true /\
+  translate s i (removeZ (i + 3 * Z.of_nat k) secs) = (firstn k (fst (translate s i secs)), true).
+Proof. exact (translate_sect_lemma bio_codon_no_U_lemma). Qed.
+Print Assumptions sect_terminates_at_named.
+
+(* "exactly the named W and no other": base and image differ exactly at the named positions, W there in the
+   base, F in the image *)
+Theorem w2f_pos_exact : forall S b p, sublist S (w_positions b) -> p = apply_w2f S b ->
+  length p = length b /\
+  forall j, (j < length b)%nat ->
+    (In j S -> nth j b 0 = W_code /\ nth j p 0 = F_code) /\
+    (~ In j S -> nth j p 0 = nth j b 0).
+Proof. exact w2f_pos_exact_lemma. Qed.
+Print Assumptions w2f_pos_exact.
+
+(* Non-vacuity and the shape of the two seeded defects.  ATG GCT AAA GGT TGG GCT TGG TGA GCT CGT TAA =
+   M A K G W A W U A R *, Sec codon annotated at 21, record 0 = SNV G>A at 10 (G -> D).  DWAWUAR starts at
+   codon 9; cut in front of the U of codon 21: DWAW; W2F-2|W2F-4: DFAF.
+   - DFAW labelled W2F-2|W2F-4 (only one substitution applied, seeded C03-4) is NOT a witness; labelled W2F-2 it is
+   - a SECT id naming another position (20) is not a witness
+   - without the record (the G is needed for ... D) nothing is a witness *)
+Definition ex_tx4 : seq := [65;84;71; 71;67;84; 65;65;65; 71;71;84; 84;71;71; 71;67;84; 84;71;71; 84;71;65;
+                            71;67;84; 67;71;84; 84;65;65].
+Definition ex_input4 : input :=
+  mkInput ex_tx4 true 0 false false [21] [mkVar 10 11 [65] true]
+          [mkAlt [] (CIn [75; 82]) [CNotIn [80]]] None (mkLimits 1 0 3 30) [].
+Example witness_pos_nonvacuous :
+  witness_ok_pos ex_input4 [68;70;65;70] [0%nat] [21] [1%nat; 3%nat] = true /\
+  witness_ok_pos ex_input4 [68;70;65;87] [0%nat] [21] [1%nat; 3%nat] = false /\
+  witness_ok_pos ex_input4 [68;70;65;87] [0%nat] [21] [1%nat] = true /\
+  witness_ok_pos ex_input4 [68;87;65;87] [0%nat] [21] [] = true /\
+  witness_ok_pos ex_input4 [68;87;65;87] [0%nat] [20] [] = false /\
+  witness_ok_pos ex_input4 [68;87;65;87] [0%nat] [] [] = false /\
+  witness_ok_pos ex_input4 [68;87;65;87;85;65;82] [0%nat] [] [] = true /\
+  witness_ok_pos ex_input4 [68;70;65;70] [] [21] [1%nat; 3%nat] = false.
+Proof. vm_compute. repeat split; reflexivity. Qed.
